@@ -480,6 +480,11 @@ def rebuild(op, args, ty):
         return const(ty, args[0].val)
     if op == 'wrap' and args[0].is_const:
         return const(ty, args[0].val)          # const() wraps into the type
+    if op == 'ftoi_unchecked' and args[0].is_const:
+        v = args[0].val
+        lo, hi = int_range(ty)
+        if v == v and lo - 1 < v < hi + 1:
+            return const(ty, int(v))
     if op == 'outside' and args[0].is_const:
         lo, hi = int_range(args[0].ty)
         return cbool(not (lo <= args[0].val <= hi))
